@@ -223,6 +223,18 @@ def canonicalise_comparisons(tree: ast.AST) -> int:
     return k
 
 
+def canonicalise_branches(tree: ast.AST) -> int:
+    """Two-way conditionals never test a negation: `if not c: A else: B` is loaded as `if c: B else: A` (if / else statements and conditional expressions).  A one-armed `if not c:` is left alone."""
+    k = 0
+    for n in ast.walk(tree):
+        two_way = (isinstance(n, ast.If) and bool(n.orelse)) or isinstance(n, ast.IfExp)
+        while two_way and isinstance(n.test, ast.UnaryOp) and isinstance(n.test.op, ast.Not):
+            n.test = n.test.operand
+            n.body, n.orelse = n.orelse, n.body
+            k += 1
+    return k
+
+
 class Repo:
     def __init__(self, root: str = "/repo", package: str = "agilerl", overrides: Optional[Dict[str, str]] = None):
         self.root = root
@@ -262,6 +274,7 @@ class Repo:
                     raise AnalysisError(f"{rel} does not parse: {e}")
                 if os.environ.get("AGILINT_CANON", "1") != "0":
                     canonicalise_comparisons(tree)
+                    canonicalise_branches(tree)
                 mod = Mod(modname, path, rel, src, tree, is_pkg=is_pkg)
                 self._index(mod)
                 self.mods[modname] = mod
